@@ -316,6 +316,11 @@ func c06RunInner(c c06Case, ctx *c06Ctx) (sig string, err error) {
 	hw := machine.NewHW(c06ROM(c.Cart), nil, false)
 	mp := hw.Mp
 	m := c06NewModel()
+	// LY is read-only: a store to it is a no-op. A twin machine gets the same history without those stores; once a
+	// machine cycle has elapsed after a store, LY and STAT must read the same on both (within that very cycle a
+	// guest cannot read, and what LY shows there is not asserted).
+	twin := machine.NewHW(c06ROM(c.Cart), nil, false)
+	sinceLYStore := -1 // machine cycles since the last store to LY (-1: none yet)
 	for i, op := range c.Ops {
 		ctx.op, ctx.step = op, i
 		if m.skip(c.Cart, op) {
@@ -328,11 +333,23 @@ func c06RunInner(c c06Case, ctx *c06Ctx) (sig string, err error) {
 			}
 			for k := 0; k < op.N; k++ {
 				hw.HW()
+				twin.HW()
+			}
+			if sinceLYStore >= 0 {
+				sinceLYStore += op.N
+			}
+			if sinceLYStore >= 1 {
+				for _, a := range []uint16{0xff44, 0xff41} {
+					if g, w := mp.Read(a), twin.Mp.Read(a); g != w {
+						return "ly-store-disturbs-lcd", fmt.Errorf("op %d: %d machine cycle(s) after a store to LY, %04x reads %02x; the same history without that store gives %02x", i, sinceLYStore, a, g, w)
+					}
+				}
 			}
 			m.ran(op.N)
 		case "cnt":
 			if m.stoppedFor >= 8 {
 				hw.T.VerifSetCounter(uint16(op.N) &^ 3)
+				twin.T.VerifSetCounter(uint16(op.N) &^ 3)
 				m.feat["counter-placed"] = true
 			}
 		case "w":
@@ -344,6 +361,11 @@ func c06RunInner(c c06Case, ctx *c06Ctx) (sig string, err error) {
 				m.timaPrev = int(before)
 			}
 			mp.Write(op.A, op.V)
+			if op.A == 0xff44 {
+				sinceLYStore = 0
+			} else {
+				twin.Mp.Write(op.A, op.V)
+			}
 			m.write(op.A, op.V)
 			switch op.A {
 			case 0xff04, 0xff44:
@@ -358,11 +380,16 @@ func c06RunInner(c c06Case, ctx *c06Ctx) (sig string, err error) {
 				// no transfer in flight for what follows
 				for k := 0; k < 170; k++ {
 					hw.HW()
+					twin.HW()
+				}
+				if sinceLYStore >= 0 {
+					sinceLYStore += 170
 				}
 				m.ran(170)
 			}
 		case "r":
 			got := mp.Read(op.A)
+			twin.Mp.Read(op.A)
 			want, mask, why := m.expect(op.A)
 			if op.A == 0xff48 || op.A == 0xff49 {
 				if v, ok := m.last[op.A]; ok && v&3 != 0 {
